@@ -17,7 +17,7 @@ GENERIC_ITEMS = ['Inner', 'G1', 'G2', 'G3', 'G4', 'G5', 'G6', 'G7', 'G8', 'G9', 
 
 # items whose TypeScript name is a solver-chosen string (R*, E*) other than the historical three, or whose declaration is replaced
 # wholesale by `#[ts(type = ..)]` / `#[ts(as = ..)]` on the container (nothing generic is declared)
-NOT_C07 = {'R3', 'R4', 'P11', 'S8'}
+NOT_C07 = {'R3', 'R4', 'P11', 'S8', 'AE1'}
 
 
 def type_text(name, item):
